@@ -32,7 +32,8 @@ ASSUMPTIONS = [
 REQUIRED = ["histories_checked", "events_checked", "deep_traversals", "low_limit_traversals",
             "raising_callbacks_checked", "list_mutating_callbacks", "history_traversals",
             "inplace_reparentings", "history_copies", "history_rerootings", "handle_variants",
-            "falsy_callable_callbacks", "forest_traversals", "tap__traverse_dfs"]
+            "falsy_callable_callbacks", "forest_traversals", "row_permuted_topologies",
+            "near_recursion_limit_chains", "tap__traverse_dfs"]
 FLOOR = {"quick": 1200, "thorough": 20000}
 SHARDS = {"quick": 8, "thorough": 16}
 TECHNIQUE = ("runtime monitoring: recorded enter/leave callback histories with unique tokens "
@@ -130,7 +131,7 @@ def _run_traverse(tree, api, mode, start, *, raise_at=None, hostile=False, falsy
     boom = RuntimeError("rv-callback-raise")
 
     def ident(nd):
-        if api == "su":
+        if api in ("su", "su_rows"):
             return int(nd)
         if not isinstance(nd, Tree.Node):
             node_err.append(f"callback got {type(nd).__name__}, not Tree.Node")
@@ -173,6 +174,12 @@ def _run_traverse(tree, api, mode, start, *, raise_at=None, hostile=False, falsy
     try:
         if api == "su":
             ret = su.traverse((tree.id(), tree.pid()), root=start, **kw)
+        elif api == "su_rows":
+            # the functional form takes any (ids, pids) table: rows in another order than the ids,
+            # the start node given as a numpy scalar
+            n_ = tree.number_of_nodes()
+            order = np.random.default_rng(n_ * 7919 + int(start)).permutation(n_)
+            ret = su.traverse((tree.id()[order], tree.pid()[order]), root=np.int64(start), **kw)
         elif api == "tree":
             ret = tree.traverse(root=start, **kw)
         elif api == "node_neg":  # the same node addressed from the end
@@ -241,6 +248,8 @@ def _exec_small(ctx, case):
             ctx.count("list_mutating_callbacks")
         if case.get("falsy"):
             ctx.count("falsy_callable_callbacks")
+        if api == "su_rows":
+            ctx.count("row_permuted_topologies")
         (ev, ret, nerr), steps = _budget().run(2000 * (n + 2) ** 2, _run_traverse, tree, api,
                                                mode, start, hostile=bool(case.get("hostile")),
                                                falsy=bool(case.get("falsy")))
@@ -455,7 +464,7 @@ def _workload(ctx):
         starts = range(n) if n <= 40 else sorted(set(rng.integers(0, n, 12).tolist()) | {0})
         ch = topo.children_lists(spec["pid"])
         for start in starts:
-            api = (APIS + ("node_neg", "node_item"))[int(rng.integers(0, 5))]
+            api = (APIS + ("node_neg", "node_item", "su_rows"))[int(rng.integers(0, 6))]
             mode = MODES[int(rng.integers(0, 3))]
             case = {"kind": "small", "tree": rc, "api": api, "mode": mode, "start": int(start)}
             if "l" in mode and rng.random() < 0.5:
@@ -498,6 +507,17 @@ def _workload(ctx):
                 "start": deep_n // 30}
         ctx.case(case, klass=f"deep-start/{shape}")
         execute(ctx, case)
+    # chains just below the interpreter's own recursion limit (an implementation that recurses
+    # "because the tree is small enough" fails exactly there)
+    lim = sys.getrecursionlimit()
+    for j, (shape, api, mode) in enumerate(jobs):
+        if (j + 5) % ctx.nshards != ctx.shard or shape not in ("chain", "revchain"):
+            continue
+        for n_ in (lim - 3, lim - 40, lim // 2 + 100):
+            case = {"kind": "deep", "shape": shape, "n": int(n_), "api": api, "mode": mode}
+            ctx.case(case, klass=f"near-limit/{shape}")
+            ctx.count("near_recursion_limit_chains")
+            execute(ctx, case)
     # lowered recursion limit
     for j, (shape, api, mode) in enumerate(jobs):
         if (j + 3) % ctx.nshards != ctx.shard:
